@@ -142,7 +142,7 @@ func TestKnown_C12_comment_depth(t *testing.T) {
 	onlyShard0(t)
 
 	b := gmime.DeepComment(6000000, false, "To", 0)
-	v := runChild(t, [][]byte{b}, budget(len(b)))[0]
+	v := runChild(t, [][]byte{b}, linearBudget(len(b)))[0]
 
 	switch v.status {
 	case "ok":
